@@ -10,6 +10,7 @@ import (
 	"regexp"
 	"strings"
 	"testing"
+	"unicode/utf8"
 
 	"pgregory.net/rapid"
 
@@ -31,7 +32,16 @@ var scanner = ref.NewScanner()
 
 type input struct {
 	Text string `json:"text"`
+	Raw  []byte `json:"raw,omitempty"` // the text when it is not UTF-8 (JSON strings cannot carry it)
 	Tail string `json:"tail"`
+}
+
+func mkInput(text, tail string) input {
+	in := input{Text: text, Tail: tail}
+	if !utf8.ValidString(text) {
+		in.Raw = []byte(text)
+	}
+	return in
 }
 
 var posRe = regexp.MustCompile(`t\.ebnf:(\d+):(\d+)`)
@@ -65,6 +75,16 @@ type expectation struct {
 func expect(text string) expectation {
 	toks, lexErr, _ := scanner.Scan(text)
 	tree, errIdx := ref.ParseKinds(ref.Kinds(toks))
+	if bad, _, _, ok := ref.FirstInvalidUTF8(text); ok {
+		// a byte sequence that is not UTF-8 is reported where the reader stands; when it directly follows an
+		// unfinished lexeme or the offending token itself, which of the two positions is named is not stated
+		if tree == nil && errIdx < len(toks) && toks[errIdx].Off+len([]rune(toks[errIdx].Src)) == bad {
+			return expectation{kind: "unstated", nToks: len(toks)}
+		}
+		if (tree != nil || errIdx >= len(toks)) && lexErr != nil && lexErr.Text != "" && lexErr.Off+len([]rune(lexErr.Text)) == bad {
+			return expectation{kind: "unstated", nToks: len(toks)}
+		}
+	}
 	switch {
 	case tree == nil && errIdx < len(toks):
 		t := toks[errIdx]
@@ -84,6 +104,8 @@ func checkText(text, tail string) (expectation, error) {
 		return e, fmt.Errorf("%v\ntext:\n%s", perr, text)
 	}
 	switch e.kind {
+	case "unstated":
+		return e, nil
 	case "none":
 		if syn != "" {
 			return e, fmt.Errorf("the text is a specification, but the parser rejects it: %s\ntext:\n%s", syn, text)
@@ -148,7 +170,7 @@ func mkTok(t *rapid.T, kind string) ref.Tok {
 	return ref.Tok{Kind: kind, Src: src, Lexeme: lex}
 }
 
-var strays = []string{"#", "@lef", "@lefty", "$", "$a", `"abc`, `""`, "'x'", "/abc", "%", "\\", "é", "\x01", "^", "9a", "/* open", "/*/", "~"}
+var strays = []string{"#", "@lef", "@lefty", "$", "$a", `"abc`, `""`, "'x'", "/abc", "%", "\\", "é", "\x01", "^", "9a", "/* open", "/*/", "~", "\xff", "\xc3(", "\xfe\xfe", "\xe4\xb8"}
 
 var tails = []string{"", ";", " ; x = y ;", " ) ) ] }}", " @left \"a\" TK = /x/ start = ;", " # $ %", " /* open", "\n\n grammar g ; start = \"a\" ;\n"}
 
@@ -188,7 +210,11 @@ func TestErrorsAtFirstOffendingToken(t *testing.T) {
 			seps[0] = rapid.SampledFrom([]string{"\n\n", "  ", "\n\t ", "// c\n\n", "/* c */ "}).Draw(t, "lead") + seps[0]
 		}
 		if strayAt >= 0 {
-			seps[strayAt] = seps[strayAt] + " " + stray + rapid.SampledFrom([]string{" ", "\n", "\t"}).Draw(t, "afterStray")
+			glue := " "
+			if rapid.IntRange(0, 2).Draw(t, "glued") == 0 {
+				glue = ""
+			}
+			seps[strayAt] = seps[strayAt] + glue + stray + rapid.SampledFrom([]string{" ", "\n", "\t"}).Draw(t, "afterStray")
 		}
 		text, _ := ref.Render(toks, seps)
 		tail := rapid.SampledFrom(tails).Draw(t, "tail")
@@ -198,12 +224,15 @@ func TestErrorsAtFirstOffendingToken(t *testing.T) {
 		if strings.HasPrefix(text, "\n") || strings.HasPrefix(text, " ") || strings.HasPrefix(text, "\t") || strings.HasPrefix(text, "/") {
 			cls = append(cls, "leading_layout")
 		}
+		if _, _, _, bad := ref.FirstInvalidUTF8(text); bad {
+			cls = append(cls, "invalid_utf8")
+		}
 		rec.Case(text, nt, cls...)
 		if nt {
 			rec.Sample("error_"+e.kind+"_"+mode, text)
 		}
 		if err != nil {
-			rec.Fail(t, "text", input{Text: text, Tail: tail}, "%v", err)
+			rec.Fail(t, "text", mkInput(text, tail), "%v", err)
 		}
 	})
 }
@@ -241,7 +270,7 @@ func TestEveryPositionOfFixedSpecs(t *testing.T) {
 				e, err := checkText(v, " ; x = ;")
 				rec.Case(v, e.kind != "none" && e.tokIdx > 0, "fixed_every_position", "error_"+e.kind)
 				if err != nil {
-					rec.Fail(t, "text", input{Text: v, Tail: " ; x = ;"}, "%v", err)
+					rec.Fail(t, "text", mkInput(v, " ; x = ;"), "%v", err)
 				}
 			}
 		}
@@ -290,18 +319,18 @@ func TestCLIDiagnostics(t *testing.T) {
 		rec.Case("cli:"+text, true, "cli", "error_"+e.kind)
 		msg := string(out)
 		if code == 0 {
-			rec.Fail(t, "text", input{Text: text}, "emerge exits with status 0 for a text with a %s error\ntext:\n%s\noutput:\n%s", e.kind, text, msg)
+			rec.Fail(t, "text", mkInput(text, ""), "emerge exits with status 0 for a text with a %s error\ntext:\n%s\noutput:\n%s", e.kind, text, msg)
 		}
 		got := regexp.MustCompile(regexp.QuoteMeta(name) + `:(\d+):(\d+)`).FindAllString(msg, -1)
 		switch e.kind {
 		case "truncated":
 			if len(got) > 0 {
-				rec.Fail(t, "text", input{Text: text}, "the specification merely ends too early, but emerge points at %v\ntext:\n%s\noutput:\n%s", got, text, msg)
+				rec.Fail(t, "text", mkInput(text, ""), "the specification merely ends too early, but emerge points at %v\ntext:\n%s\noutput:\n%s", got, text, msg)
 			}
 		default:
 			want := fmt.Sprintf("%s:%d:%d", name, e.line, e.col)
 			if len(got) == 0 || got[0] != want {
-				rec.Fail(t, "text", input{Text: text}, "the %s error is at %s, emerge reports %v\ntext:\n%s\noutput:\n%s", e.kind, want, got, text, msg)
+				rec.Fail(t, "text", mkInput(text, ""), "the %s error is at %s, emerge reports %v\ntext:\n%s\noutput:\n%s", e.kind, want, got, text, msg)
 			}
 		}
 	}
@@ -315,6 +344,9 @@ func TestReplay(t *testing.T) {
 	var in input
 	if err := json.Unmarshal(raw, &in); err != nil {
 		t.Fatal(err)
+	}
+	if in.Raw != nil {
+		in.Text = string(in.Raw)
 	}
 	if _, err := checkText(in.Text, in.Tail); err != nil {
 		rec.Fail(t, "text", in, "%v", err)
